@@ -1144,3 +1144,117 @@ def pilot_state_progress(case, rp):
                 return dict(confirmed=True, detail='; '.join(probs), input=dict(current=cur, target=tgt),
                             found_by='exhaustive native enumeration (%d pairs)' % n)
     return dict(confirmed=False, detail='all %d pairs hold natively' % n)
+
+
+# ------------------------------------------------------------------------------
+# C18: node list
+#
+def mk_rm(rp, agents=0):
+    from radical.pilot.agent.resource_manager.base import ResourceManager
+    rm = object.__new__(ResourceManager)
+    rm._log, rm._prof = Stub(), Stub()
+    rm._cfg = AttrDict(agents={'agent_%d' % i: {'target': 'node'} for i in range(1, agents + 1)})
+    return rm
+
+
+@builder('agent/resource_manager/base.py:ResourceManager._filter_nodes',
+         'agent/resource_manager/base.py:ResourceManager._get_node_list',
+         'agent/resource_manager/base.py:ResourceManager._get_cores_per_node',
+         'agent/resource_manager/base.py:ResourceManager._init_from_scratch#blocked')
+def rm_nodes(case, rp):
+    from radical.pilot.agent.resource_manager.base import RMInfo
+    n = 0
+    for nn in range(1, 6):
+        for cpn in (1, 3):
+            rm = mk_rm(rp)
+            nodes = [('node%d' % i, cpn) for i in range(nn)]
+            info = RMInfo({'gpus_per_node': 2, 'lfs_per_node': 10, 'mem_per_node': 20})
+            nl = rm._get_node_list(nodes, info)
+            probs = []
+            if [x['index'] for x in nl] != list(range(nn)): probs.append('indices %s' % [x['index'] for x in nl])
+            if any(x['cores'] != [0.0] * cpn or x['gpus'] != [0.0, 0.0] for x in nl):
+                probs.append('cores/gpus not as configured')
+            if rm._get_cores_per_node(nodes) != cpn: probs.append('cores per node')
+            if probs:
+                return dict(confirmed=True, detail='_get_node_list: ' + '; '.join(probs), input=dict(nodes=nodes))
+            for req in range(1, nn + 1):
+                for agents in (0, 1, 2):
+                    n += 1
+                    rm = mk_rm(rp, agents)
+                    info = RMInfo({'node_list': copy.deepcopy(nl), 'requested_nodes': req,
+                                   'backup_nodes': 0, 'agent_node_list': [], 'service_node_list': []})
+                    try:
+                        rm._filter_nodes(info)
+                    except (RuntimeError, IndexError, AssertionError):
+                        continue
+                    got = info.node_list
+                    names = [x['name'] for x in got]
+                    anames = [x['name'] for x in info.agent_node_list]
+                    probs = []
+                    if not got: probs.append('empty node list')
+                    if len(got) > req: probs.append('%d nodes offered, %d requested' % (len(got), req))
+                    if len(set(x['index'] for x in got)) != len(got): probs.append('duplicate node index')
+                    if set(names) & set(anames): probs.append('agent node %s also offered to tasks' % (set(names) & set(anames)))
+                    if any(x not in nl for x in got): probs.append('a node that was not allocated is offered')
+                    if probs:
+                        return dict(confirmed=True, detail='_filter_nodes: ' + '; '.join(probs),
+                                    input=dict(n_nodes=nn, requested=req, agents=agents),
+                                    found_by='small-scope native enumeration (%d cases)' % n)
+    return dict(confirmed=False, detail='%d node-list cases hold natively' % n)
+
+
+def exec_fragment(rp, rel, qualname, prefix, env):
+    """run one statement of the real function text (the `fragment` of a spec)
+    natively in the given environment"""
+    import ast, os, textwrap
+    path = os.path.join(os.path.dirname(rp.__file__), rel)
+    src = open(path).read()
+    tree = ast.parse(src)
+    hit = [n for n in ast.walk(tree) if isinstance(n, ast.stmt) and
+           (ast.get_source_segment(src, n) or '').startswith(prefix)]
+    assert len(hit) == 1, 'fragment %r matches %d statements' % (prefix, len(hit))
+    lines = src.split('\n')[hit[0].lineno - 1:hit[0].end_lineno]
+    code = textwrap.dedent('\n'.join(lines))
+    exec(compile(code, path, 'exec'), env)
+    return env
+
+
+def check_blocked(rp):
+    import radical.pilot.constants as rpc
+    n = 0
+    for nn in (1, 2):
+        for bc in ([], [0], [1, 2]):
+            for bg in ([], [1], [0, 1]):
+                n += 1
+                nl = [{'index': i, 'name': 'n%d' % i, 'cores': [0.0] * 4, 'gpus': [0.0, 0.0],
+                       'lfs': 1, 'mem': 2} for i in range(nn)]
+                before = copy.deepcopy(nl)
+                info = AttrDict(cores_per_node=4, gpus_per_node=2, node_list=nl)
+                env = dict(rm_info=info, blocked_cores=bc, blocked_gpus=bg, rpc=rpc, len=len)
+                exec_fragment(rp, 'agent/resource_manager/base.py', 'ResourceManager._init_from_scratch',
+                              'if blocked_cores or blocked_gpus:', env)
+                probs = []
+                for nb, na in zip(before, nl):
+                    for i in range(4):
+                        want = None if i in bc else nb['cores'][i]
+                        if na['cores'][i] != want: probs.append('node %d core %d is %r, expected %r' % (nb['index'], i, na['cores'][i], want))
+                    for i in range(2):
+                        want = None if i in bg else nb['gpus'][i]
+                        if na['gpus'][i] != want: probs.append('node %d gpu %d is %r, expected %r' % (nb['index'], i, na['gpus'][i], want))
+                if info.cores_per_node != 4 - len(bc) or info.gpus_per_node != 2 - len(bg):
+                    probs.append('per-node figures %d/%d' % (info.cores_per_node, info.gpus_per_node))
+                if probs:
+                    return probs[:3], dict(blocked_cores=bc, blocked_gpus=bg, n_nodes=nn), n
+    return [], None, n
+
+
+_rm_nodes_plain = rm_nodes
+
+
+@builder('agent/resource_manager/base.py:ResourceManager._init_from_scratch#blocked')
+def rm_blocked(case, rp):
+    probs, inp, n = check_blocked(rp)
+    if probs:
+        return dict(confirmed=True, detail='blocked marking: ' + '; '.join(probs), input=inp,
+                    found_by='the real statement executed natively over %d small cases' % n)
+    return dict(confirmed=False, detail='%d blocked-marking cases hold natively' % n)
